@@ -160,6 +160,15 @@ class Engine(MatrixTheory, NumpyTheory, Evaluator):
             lv, n = st.heap.fresh_list(t[1], base)
             st.assume(n >= 0)
             return VList(lv.ref, nd=(k == 'arr'))
+        if k == 'assoc':
+            keys, kn = st.heap.fresh_list('int', base + '.keys')
+            rv, cnt, lens = st.heap.fresh_rag(t[1], base)
+            q, q2 = z3.Int(fresh_name('q')), z3.Int(fresh_name('q'))
+            K_ = st.heap.lists[keys.ref].leaves[0]
+            st.assume(z3.And(kn >= 0, cnt == kn))
+            st.assume(z3.ForAll([q], z3.Implies(z3.And(q >= 0, q < cnt), lens[q] >= 0)))
+            st.assume(z3.ForAll([q, q2], z3.Implies(z3.And(q >= 0, q < q2, q2 < kn), K_[q] != K_[q2])))     # a dict: keys pairwise distinct
+            return VAssoc(VList(keys.ref), rv)
         if k in ('mat', 'flatmat', 'cube'):
             return self.fresh_mat(t[1], base, st, flat=(k == 'flatmat'), cube=(k == 'cube'))
         if k == 'rag':
@@ -321,6 +330,8 @@ class Engine(MatrixTheory, NumpyTheory, Evaluator):
                 if r is None:
                     raise Unsupported('ndarray dunder on non-row data')
                 return r
+            if f.kind == 'assocmethod':
+                return f.self_val.vals if f.name == 'values' else f.self_val.keys
             if f.kind == 'matmethod':
                 return self.mat_method(f.self_val, f.name, args, kw, st, node)
             if f.kind == 'ragmethod' and f.name == 'items':
@@ -576,6 +587,8 @@ class Engine(MatrixTheory, NumpyTheory, Evaluator):
             if not args:
                 return st.heap.alloc_list(None, z3.IntVal(0), [])
             v = args[0]
+            if isinstance(v, VRag):
+                return v          # list(d.values()): the list of arrays itself (never mutated afterwards by the modelled code)
             if isinstance(v, VList):
                 c = st.heap.lists[v.ref]
                 return st.heap.alloc_list(c.etype, c.length, c.leaves)
@@ -898,8 +911,12 @@ class Engine(MatrixTheory, NumpyTheory, Evaluator):
             st.env[k] = self.spec_eval(v, st)
         for lab, e in mon.get('requires', []):
             self.oblige(st, 'monitor', 'call.' + lab, self.spec_truth(e, st), node)
-        ret = self.fresh_value('elem', 'ret', st)
+        ret = self.fresh_value(parse_type(mon.get('returns', 'elem')), 'ret', st)
         st.env['call_ret'] = ret
+        for lab, e in mon.get('assume', []):
+            # what the contract ASSUMES about the callback (part of the function's precondition: "given a callback that ...")
+            st.assume(self.spec_truth(e, st))
+            self.assumed_used.add('<callback>::' + lab)
         for g, e in (mon.get('updates') or {}).items():
             st.ghost[g] = self.spec_eval(e, st)
         for k in ('callee', 'call_args', 'call_star', 'call_kwargs', 'call_ret'):
@@ -1513,6 +1530,12 @@ class Engine(MatrixTheory, NumpyTheory, Evaluator):
                     st.assume(cnt >= 0)
                     st.assume(z3.ForAll([q], z3.Implies(z3.And(q >= 0, q < cnt), lens[q] >= 0)))
                     st.heap.rags[cur.ref] = st.heap.rags.pop(tmp.ref)
+                if isinstance(cur, VAssoc):
+                    # a dict extended inside the loop: arbitrary (well-formed) content at the loop head
+                    et_ = st.heap.rags[cur.vals.ref].etype
+                    st.env[m] = self.fresh_value(('assoc', et_), m, st)
+                elif not isinstance(cur, (VRag, VBlocks, VList, VObj, type(None))) and not isinstance(cur, (VInt, VBool, VReal, VElem, VTuple, VSlice, VNone, VStr, VFunc, VRec)):
+                    raise Unsupported('a value of kind %r is mutated in a loop: the engine cannot havoc it' % type(cur).__name__)
                 if isinstance(cur, VBlocks):
                     blk = st.heap.objs[cur.ref]
                     cell = st.heap.lists[blk['flat'].ref]
